@@ -157,3 +157,34 @@ Theorem C08_nonce_order_except_known : forall (hash : N -> N -> N) (zero : N) (l
   end.
 Proof. exact add_nonce_order. Qed.
 Print Assumptions C08_nonce_order_except_known.
+
+(* ===================== System level (Model/ExecSys.v, Proofs/ExecSysP.v; vocabulary: see Props/C07.v) =====================
+   C08_report_sound_cycle = C08_provable composed with C07 across the cycle: for every cycle of three rounds, every
+   chain report r of the Filter round's execute report, handed to VerifyComputeRoot the way the destination does it
+   (leaves = hashes of the included messages, flags = the first |leaves|+|proofs|-1 bits of ProofFlagBits), yields
+   exactly the root of a commit report x that >= f_j + 1 distinct oracles reported identically in the GetCommitReports
+   round (j = the chain key it was filed under) and that names r's source chain.  Hypotheses: the internal hash is
+   commutative and no pending commit report has more than 256 messages (the verifier's own limit). *)
+Require Import Verif.Model.Consensus Verif.Model.ExecSys Verif.Proofs.ExecSysP.
+Theorem C08_report_sound_cycle :
+  forall (hash : N -> N -> N) (zero : N) (leaf_hash : msg -> option N) (enc_size : creport -> option N)
+         (tree_gas : N -> N) (max_size max_gas : N) (nonce_key : EM.nonce_t -> N)
+         (sup : N -> list N) (bigF : Z) (dest : N) (fc1 fc2 fc3 : list (N * Z))
+         (prev o1 o2 o3 : outcome) (aos1 aos2 aos3 : list sao),
+  NoDup (map fst aos1) -> NoDup (map fst aos2) -> NoDup (map fst aos3) ->
+  sys_validated sup dest fc1 aos1 -> sys_validated sup dest fc2 aos2 -> sys_validated sup dest fc3 aos3 ->
+  key_functional aos1 -> key_functional aos2 ->
+  exec_round hash zero leaf_hash enc_size tree_gas max_size max_gas nonce_key bigF dest fc1 prev aos1 = Ok o1 ->
+  o_state o1 = 2%N ->
+  exec_round hash zero leaf_hash enc_size tree_gas max_size max_gas nonce_key bigF dest fc2 o1 aos2 = Ok o2 ->
+  exec_round hash zero leaf_hash enc_size tree_gas max_size max_gas nonce_key bigF dest fc3 o2 aos3 = Ok o3 ->
+  forall (r : creport) (hs : list N),
+  (forall a b : N, hash a b = hash b a) ->
+  (forall cd, In cd (o_pending o2) -> length (c_msgs cd) <= 256) ->
+  In r (o_report o3) -> Forall2 (fun (mm : msg) (h : N) => leaf_hash mm = Some h) (r_msgs r) hs ->
+  exists (x : xcommit) (j : N) (fj : Z),
+    In (j, fj) fc1 /\ quorum (xcommits_of j) (f_plus_1 fj) aos1 x /\ c_src (xc_cd x) = r_src r /\
+    verify hash hs (r_proofs r) (flags_to_bools (r_flags r) (length hs + length (r_proofs r) - 1))
+      = Ok (c_root (xc_cd x)).
+Proof. exact cycle_report_sound. Qed.
+Print Assumptions C08_report_sound_cycle.
